@@ -99,6 +99,24 @@ CHECKS = {
              'outside that grammar are not covered.',
         note='Trusted: the undecorated Python execution is the specification.',
         design='§3 C11'),
+    'C12': dict(
+        category='exploration',
+        technique='per-output validation: every emitted module is compiled, imported and '
+                  'executed, result compared with the input by canonical form; failures are '
+                  'reduced to their causal features by greedy feature removal; value clause by '
+                  'eval of the emitted expression',
+        text='Held (up to the listed known findings) on generated configurations x both '
+             'generators x option settings, and on generated values of every documented type.',
+        note="Trusted: vf.canon 'cfg-exact' (sign of zero ignored), Python compile/import.",
+        design='§3 C12'),
+    'C13': dict(
+        category='exploration',
+        technique='per-output validation: emitted fiddler compiled and executed on a copy of '
+                  'old, compared with apply_diff on another copy, 4 modes per diff',
+        text='Held on diffs from the C10 pair generator and on hand-assembled diffs with '
+             'references among new shared values / into moved parts of old.',
+        note='Trusted: apply_diff as reference (its own correctness is C10).',
+        design='§3 C13'),
     'C03': dict(
         category='exploration',
         technique='lock-step reference-model monitor (ArgModel) over generated edit histories '
